@@ -7,7 +7,7 @@ ASSUMPTIONS = [
     "the theorems bound the distance by the tolerance; WRAP_TOLERANCE is re-read from the compiled crate",
 ]
 RULE = ("seq_nr_offset enumerated: for each chosen `old` (boundary values + random) and tolerance, ALL 65536 "
-        "values of `new` (one row per case); plus random (new, old, tol) triples; non-trivial = the row crosses "
+        "values of `new` (one row per case), the same rows through SeqNr's own Sub/Ord (the crate's own constant); plus random (new, old, tol) triples; non-trivial = the row crosses "
         "the wrap (old within tol of 0 or 65535) or tol != 1024; distinct = distinct case line")
 
 
@@ -25,6 +25,9 @@ def gen(rng, tier):
     for t in tols:
         for o in olds:
             lines.append(f"seqnr_row {o} {t}")
+    # SeqNr's own Sub/Ord (the crate's own WRAP_TOLERANCE constant), every value of new
+    for o in olds:
+        lines.append(f"seqsub_row {o}")
     for _ in range(2000 if tier == "quick" else 200000):
         lines.append(f"seqnr {rng.below(65536)} {rng.below(65536)} {rng.choice([0, 1, 1024, 32767, rng.below(32768)])}")
     return lines
@@ -32,6 +35,8 @@ def gen(rng, tier):
 
 def nontrivial(line, out):
     t = line.split()
+    if t[0] == "seqsub_row":
+        return "ORD" not in out
     if t[0] == "seqnr_row":
         o, tol = int(t[1]), int(t[2])
         return o <= tol or o >= 65535 - tol or tol != 1024
@@ -45,6 +50,9 @@ def classify(line, out):
 
 def pred(line, out):
     t = line.split()
+    if t[0] == "seqsub_row":
+        # within the tolerance the theorems assume (1024) the distance must be the true modular distance
+        return f"seqnr_row_pred {t[1]} 1024 | {out}"
     if t[0] == "seqnr_row":
         return f"seqnr_row_pred {t[1]} {t[2]} | {out}"
     if int(t[3]) > 32767:
